@@ -6,8 +6,33 @@ import os
 import re
 import shutil
 import subprocess
+import threading
 import time
 import engine as E
+
+MEM_LIMIT_MB = int(os.environ.get("KANI_MEM_LIMIT_MB", "4096"))
+
+
+def _watchdog(crate_dir, stop, killed):
+    """Kill any cbmc started from crate_dir whose resident set exceeds MEM_LIMIT_MB (the machine is shared)."""
+    real = os.path.realpath(crate_dir)
+    while not stop.wait(2.0):
+        for pid in os.listdir('/proc'):
+            if not pid.isdigit():
+                continue
+            try:
+                with open('/proc/%s/comm' % pid) as f:
+                    if f.read().strip() != 'cbmc':
+                        continue
+                if not os.path.realpath(os.readlink('/proc/%s/cwd' % pid)).startswith(real):
+                    continue
+                with open('/proc/%s/status' % pid) as f:
+                    m = re.search(r'VmRSS:\s+(\d+) kB', f.read())
+                if m and int(m.group(1)) / 1024 > MEM_LIMIT_MB:
+                    os.kill(int(pid), 9)
+                    killed.append(int(m.group(1)) // 1024)
+            except (OSError, ValueError):
+                continue
 
 
 def _parse_section(raw):
@@ -37,7 +62,7 @@ def run(crate_dir, harnesses, timeout=600, playback=False, extra=(), retry=True)
     are re-run once."""
     out = _run(crate_dir, harnesses, timeout, playback, extra)
     if retry:
-        again = [h for h in harnesses if out[h]['status'] == E.UNDECIDED and
+        again = [h for h in harnesses if out[h]['status'] == E.UNDECIDED and not out.get("_mem_killed") and
                  re.search(r'CBMC failed with status|harness not reached|timeout \d+s', out[h]['raw'])]
         if again:
             out2 = _run(crate_dir, again, timeout, playback, extra)
@@ -59,8 +84,16 @@ def _run(crate_dir, harnesses, timeout, playback, extra):
     env = E.kani_env()
     tdir = os.path.join(crate_dir, "target-kani")
     env["CARGO_TARGET_DIR"] = tdir
-    p = subprocess.run(["timeout", str(timeout)] + cmd, capture_output=True, text=True, cwd=crate_dir, env=env)
+    stop, killed = threading.Event(), []
+    wd = threading.Thread(target=_watchdog, args=(crate_dir, stop, killed), daemon=True)
+    wd.start()
+    try:
+        p = subprocess.run(["timeout", str(timeout)] + cmd, capture_output=True, text=True, cwd=crate_dir, env=env)
+    finally:
+        stop.set()
     raw = p.stdout + "\n" + p.stderr
+    if killed:
+        raw += "\n[kmulti] cbmc killed by the memory watchdog at %s MB (limit %d MB): too expensive, UNDECIDED\n" % (killed, MEM_LIMIT_MB)
     shutil.rmtree(tdir, ignore_errors=True)
     wall = time.time() - t0
     # split on "Checking harness <name>..."
@@ -77,8 +110,11 @@ def _run(crate_dir, harnesses, timeout, playback, extra):
             continue
         status, failed, cover = _parse_section(sec)
         m = re.search(r'Verification Time: ([0-9.]+)s', sec)
+        if killed and status == E.UNDECIDED:
+            sec += "\n[kmulti] cbmc killed by the memory watchdog (limit %d MB): too expensive for this tier\n" % MEM_LIMIT_MB
         out[h] = dict(status=status, failed=failed, time_s=float(m.group(1)) if m else 0.0, raw=sec[-6000:], cover=cover,
                       playback=E.parse_playback(sec) if playback else None)
     out["_wall_s"] = wall
     out["_cmd"] = " ".join(cmd)
+    out["_mem_killed"] = killed
     return out
